@@ -14,6 +14,7 @@ import (
 	"time"
 
 	"github.com/go-logr/logr"
+	"github.com/google/uuid"
 	"github.com/spf13/cobra"
 	"github.com/wrgl/wrgl/cmd/wrgl/fetch"
 	"github.com/wrgl/wrgl/cmd/wrgl/utils"
@@ -27,6 +28,7 @@ import (
 	"github.com/wrgl/wrgl/pkg/prune"
 	"github.com/wrgl/wrgl/pkg/ref"
 	"github.com/wrgl/wrgl/pkg/sorter"
+	"github.com/wrgl/wrgl/pkg/transaction"
 )
 
 func init() {
@@ -39,6 +41,7 @@ func init() {
 type repoSnap struct {
 	objs map[string][]byte
 	refs map[string][]byte
+	txs  []*ref.Transaction // the transaction rows of the ref store (open or committed)
 }
 
 func takeSnap(db *MemStore, rs ref.Store) *repoSnap {
@@ -51,6 +54,7 @@ func takeSnap(db *MemStore, rs ref.Store) *repoSnap {
 	for k, v := range m {
 		s.refs[k] = v
 	}
+	s.txs, _ = rs.ListTransactions(0, 1000)
 	return s
 }
 
@@ -62,6 +66,10 @@ func (s *repoSnap) restore() (*MemStore, ref.Store, func()) {
 	rs, closeRS := NewRefStore()
 	for k, v := range s.refs {
 		rs.Set(k, v)
+	}
+	for _, tx := range s.txs {
+		cp := *tx
+		rs.NewTransaction(&cp)
 	}
 	return db, rs, closeRS
 }
@@ -411,7 +419,7 @@ func c13Experiment(seed int64, kind, shape string, snap *repoSnap, extra []*MemS
 			dbk, rsk, closek := snap.restore()
 			bk, err := runWithBudget(op, dbk, rsk, k)
 			out.Faulted = append(out.Faulted, err != nil)
-			if kind == "fetch" {
+			if kind == "fetch" || kind == "tx-commit" {
 				out.Traces = append(out.Traces, n.traceOps(bk.trace))
 			}
 			out.Crashes = append(out.Crashes, n.state(dbk, rsk))
@@ -476,6 +484,15 @@ func buildC13(seed int64, shape string) (kind string, snap *repoSnap, extra []*M
 	if shape == "fetch" {
 		kind = "fetch"
 		extra, op, cleanup, err = buildC13Fetch(r, db, rs, t0, mkTable)
+		if err != nil {
+			return
+		}
+		snap = takeSnap(db, rs)
+		return
+	}
+	if shape == "tx" {
+		kind = "tx-commit"
+		op, heads, err = buildC13Tx(r, db, rs, t0, mkTable)
 		if err != nil {
 			return
 		}
@@ -649,6 +666,68 @@ func buildC13Fetch(r *rand.Rand, db *MemStore, rs ref.Store, t0 *TableSpec, mkTa
 	return []*MemStore{remote}, opFetch(srv.URL()), cleanup, nil
 }
 
+// buildC13Tx: `wrgl transaction commit` of a transaction that stages 1..3 branches. The repository has
+// main (one commit, table t0), possibly a second branch, and an open transaction whose commits were
+// staged the way `wrgl commit --txid` stages them: table ingested, commit object (parent = the branch's
+// head, if it has one) saved, txs/<id>/<branch> set. The operation moves every staged branch to a
+// rewritten copy of its staged commit (one commit object + one logged ref update per branch, in map
+// order), then flips the transaction's status. An interrupted run leaves the transaction open; the
+// re-run must move only the branches not moved yet.
+func buildC13Tx(r *rand.Rand, db *MemStore, rs ref.Store, t0 *TableSpec, mkTable func(int) *TableSpec) (op c13Op, heads []string, err error) {
+	names := []string{"main", "feature", "dev"}
+	if r.Intn(2) == 0 {
+		// a second existing branch, forked from main
+		t1 := cloneSpec(t0)
+		t1.Rows[r.Intn(len(t1.Rows))][1] = "forked"
+		if err = opCommit(t1.CSV(0), t1.PK, 1, "feature")(db, rs); err != nil {
+			return
+		}
+	}
+	txid, err := uuid.NewRandomFromReader(r)
+	if err != nil {
+		return
+	}
+	if _, err = rs.NewTransaction(&ref.Transaction{ID: txid, Status: ref.TSInProgress, Begin: fixedTime}); err != nil {
+		return
+	}
+	nb := 1 + r.Intn(3)
+	perm := r.Perm(len(names))
+	for i := 0; i < nb; i++ {
+		branch := names[perm[i]]
+		t1 := cloneSpec(t0)
+		t1.Rows[r.Intn(len(t1.Rows))][1] = "staged-" + branch
+		if r.Intn(3) == 0 {
+			t1 = mkTable([]int{2, 20}[r.Intn(2)])
+		}
+		var s *sorter.Sorter
+		if s, err = sorter.NewSorter(sorter.WithRunSize(1 << 30)); err != nil {
+			return
+		}
+		var sum, csum []byte
+		if sum, err = ingest.IngestTable(db, s, io.NopCloser(bytes.NewReader(t1.CSV(0))), t1.PK, logr.Discard(), ingest.WithNumWorkers(1)); err != nil {
+			return
+		}
+		com := &objects.Commit{Table: sum, Message: "staged " + branch, Time: fixedTime.Add(time.Duration(i+1) * time.Second), AuthorEmail: "e", AuthorName: "a"}
+		if parent, e := ref.GetHead(rs, branch); e == nil {
+			com.Parents = [][]byte{parent}
+		}
+		buf := newBuf()
+		com.WriteTo(buf)
+		if csum, err = objects.SaveCommit(db, buf.Bytes()); err != nil {
+			return
+		}
+		if err = ref.SaveTransactionRef(rs, txid, branch, csum); err != nil {
+			return
+		}
+		heads = append(heads, "heads/"+branch)
+	}
+	op = func(db objects.Store, rs ref.Store) error {
+		_, err := transaction.Commit(db, rs, txid)
+		return err
+	}
+	return
+}
+
 func runC13(ctx *Ctx) {
 	seed := ctx.Seed*1000003 + int64(ctx.Idx)
 	shape := ""
@@ -657,6 +736,10 @@ func runC13(ctx *Ctx) {
 		shape = "fetch"
 	case 3:
 		shape = "garbage"
+	}
+	if ctx.Idx%12 == 10 {
+		// 1 case in 12 (taken from the plain ones): `wrgl transaction commit`
+		shape = "tx"
 	}
 	kind, snap, extra, op, heads, cleanup, err := buildC13(seed, shape)
 	if err != nil {
